@@ -89,7 +89,8 @@ def rp_ctor(u: Unit):
 import numpy as np
 from pyxel.detectors import ReadoutProperties
 VIOLATED, DETAIL = False, ''
-cases = [([1, 2, 2], 0.0), ([0.0, 1.0], -1.0), ([1.0, 2.0], 1.0), ([1.0, 2.0], 3.0), ([3.0, 2.0, 4.0], 0.0), ([[1.0, 2.0]], 0.0), ([1.0, 2.0, 4.0], 0.5), ([-2.0, -1.0], -3.0)]
+cases = [([1, 2, 2], 0.0), ([0.0, 1.0], -1.0), ([1.0, 2.0], 1.0), ([1.0, 2.0], 3.0), ([3.0, 2.0, 4.0], 0.0), ([[1.0, 2.0]], 0.0), ([1.0, 2.0, 4.0], 0.5), ([-2.0, -1.0], -3.0),
+         ([1e-9, 3e-9, 4e-9], 0.0), ([2e-9, 3e-9, 5e-9, 6e-9, 9e-9], 1e-9), ([1.0, 2.000005, 3.000005, 4.000005], 0.0), ([1e6, 1e6 + 1, 1e6 + 3], 0.0)]
 for times, start in cases:
     t = np.array(times, dtype=float)
     valid = t.ndim == 1 and t.size >= 1 and t[0] != 0 and start < t[0] and bool(np.all(np.diff(t) > 0))
@@ -99,7 +100,7 @@ for times, start in cases:
         if valid: VIOLATED, DETAIL = True, f'valid schedule {times}, start {start} rejected: {e!r}'
         continue
     exp = np.diff(np.concatenate(([start], t)))
-    if not valid or not np.allclose(rp.steps, exp) or rp.num_steps != len(t):
+    if not valid or not np.array_equal(rp.steps, exp) or rp.num_steps != len(t):
         VIOLATED, DETAIL = True, f'schedule {times}, start {start}: accepted={True}, valid={valid}, steps={rp.steps.tolist()} expected {exp.tolist()}'
 """, "expect": "invalid schedules rejected; steps are the differences with the start time prepended"}
     for ndim in (1, 2):
